@@ -8,6 +8,7 @@ All statements are for EVERY `c : CryptoOps` with `CryptoLaws c` (every key, non
 Helper lemmas: SpsdkVerif/Proofs/Sb2Cmd.lean, Sb2Section.lean, Sb2Image.lean.
 -/
 import SpsdkVerif.Proofs.Sb2Image
+import SpsdkVerif.Proofs.ExecLaws
 
 namespace SpsdkVerif.Properties.C04
 open SpsdkVerif SpsdkVerif.Sb2 SpsdkVerif.Sb2.Rom
@@ -186,7 +187,53 @@ theorem wrong_kek_v20 (h : CryptoLaws c) (cfg : Cfg) (signed : Bool) (wf : Spec.
     (hk : kek' ≠ cfg.kek) :
     Rom.romV20 c kek' (buildV20 c cfg signed) = .error .badKeyBlob ∨ Break c := Sb2.wrong_kek_v20 h cfg signed wf kek' hk
 
-/-! ## 6. Non-vacuity and sanity -/
+/-- a boot section whose ciphertext body was replaced (same length) is refused — or two different byte strings with
+    the same HMAC-SHA256 under the MAC key are exhibited; `S` = the section as built for its position -/
+theorem section_body_tampered (h : CryptoLaws c) (dek mac nonce pre post : Bytes) (s : Section)
+    (wf : Spec.WFsection s) (hpre : pre.length % 16 = 0) (body' : Bytes)
+    (hlen : body'.length = Spec.cmdsLen s.cmds)
+    (hne : body' ≠ (buildSection c dek mac nonce (nonceCtr nonce + pre.length / 16) s).drop (48 + 32 * Spec.macCount s)) :
+    Rom.readSection c dek mac nonce
+        (pre ++ (buildSection c dek mac nonce (nonceCtr nonce + pre.length / 16) s).take (48 + 32 * Spec.macCount s) ++ body' ++ post)
+        pre.length = .error .badSectionMac ∨ Break c :=
+  readSection_body_tampered h dek mac nonce pre post s wf hpre body' hlen hne
+
+/-- the same for the encrypted section header -/
+theorem section_header_tampered (h : CryptoLaws c) (dek mac nonce pre post : Bytes) (s : Section)
+    (wf : Spec.WFsection s) (hpre : pre.length % 16 = 0) (eh' : Bytes) (hlen : eh'.length = 16)
+    (hne : eh' ≠ (buildSection c dek mac nonce (nonceCtr nonce + pre.length / 16) s).take 16) :
+    Rom.readSection c dek mac nonce
+        (pre ++ eh' ++ (buildSection c dek mac nonce (nonceCtr nonce + pre.length / 16) s).drop 16 ++ post)
+        pre.length = .error .badSectionMac ∨ Break c :=
+  readSection_header_tampered h dek mac nonce pre post s wf hpre eh' hlen hne
+
+/-- a modified header MAC or MAC table is always refused (the ROM recomputes and compares; no assumption needed) -/
+theorem section_macs_tampered (h : CryptoLaws c) (dek mac nonce pre post : Bytes) (s : Section)
+    (wf : Spec.WFsection s) (hpre : pre.length % 16 = 0) (macs' : Bytes)
+    (hlen : macs'.length = 32 + 32 * Spec.macCount s)
+    (hne : macs' ≠ ((buildSection c dek mac nonce (nonceCtr nonce + pre.length / 16) s).drop 16).take (32 + 32 * Spec.macCount s)) :
+    Rom.readSection c dek mac nonce
+        (pre ++ (buildSection c dek mac nonce (nonceCtr nonce + pre.length / 16) s).take 16 ++ macs' ++
+          (buildSection c dek mac nonce (nonceCtr nonce + pre.length / 16) s).drop (48 + 32 * Spec.macCount s) ++ post)
+        pre.length = .error .badSectionMac :=
+  readSection_macs_tampered h dek mac nonce pre post s wf hpre macs' hlen hne
+
+/- Not stated: "a byte changed in the signed range is detected".  That is the signature's job; the ROM model only emits
+   the obligation (range, signature, certificate block), which the harness verifies with `cryptography`, and the executable
+   `CryptoOps` instance has placeholder signatures — a `Break.sigForgery` reduction about it would say nothing about RSA. -/
+
+/-! ## 6. The compiled instance: the driver's `execOps` (FIPS-197 AES, FIPS-180 SHA-256 written in Lean) satisfies the
+    laws (Proofs/ExecLaws.lean), so the theorems hold for exactly the functions the harness runs natively -/
+
+theorem exec_rom_accepts_v21 (cfg : Cfg) (wf : Spec.WF21 cfg) :
+    Rom.romV21 Crypto.execOps cfg.kek (buildV21 Crypto.execOps cfg) = .ok (Spec.expected21 cfg) :=
+  rom_accepts_v21 Crypto.execOps_laws cfg wf
+
+theorem exec_rom_accepts_v20 (cfg : Cfg) (signed : Bool) (wf : Spec.WF20 cfg signed) :
+    Rom.romV20 Crypto.execOps cfg.kek (buildV20 Crypto.execOps cfg signed) = .ok (Spec.expected20 cfg signed) :=
+  rom_accepts_v20 Crypto.execOps_laws cfg signed wf
+
+/-! ## 7. Non-vacuity and sanity -/
 
 /-- smallest certificate block the ROM can delimit: header with an empty certificate table + 4 root key hashes -/
 def demoCert : Bytes :=
